@@ -280,10 +280,13 @@ where
     let cap_height = fri_params.config.cap_height;
 
     ensure!(trace_cap.len() == 1 << cap_height);
-    ensure!(
-        quotient_polys_cap.is_none()
-            || quotient_polys_cap.as_ref().map(|q| q.len()) == Some(1 << cap_height)
-    );
+    // The quotient commitment must be present exactly when the STARK has quotient polynomials:
+    // without its cap the quotient leaves of the FRI queries would not be authenticated.
+    ensure!(if let Some(quotient_polys_cap) = quotient_polys_cap {
+        stark.num_quotient_polys(config) > 0 && quotient_polys_cap.len() == 1 << cap_height
+    } else {
+        stark.num_quotient_polys(config) == 0
+    });
 
     ensure!(local_values.len() == S::COLUMNS);
     ensure!(next_values.len() == S::COLUMNS);
